@@ -62,6 +62,7 @@ var kindElem = map[string]string{
 	"par": "parallelGateway", "incl": "inclusiveGateway", "ebg": "eventBasedGateway",
 	"catch": "intermediateCatchEvent", "throw": "intermediateThrowEvent", "sub": "subProcess",
 	"boundary": "boundaryEvent", "plaintask": "task", "usertask": "userTask",
+	"complex": "complexGateway", // an element the engine does not execute
 }
 
 const xpathLang = "http://www.w3.org/1999/XPath"
